@@ -869,65 +869,101 @@ ExecView viewFrom(const Json& j) {
 // parse-analyse-run of side B runs in a forked child of its own. State that leaks through anything that
 // outlives an evaluator - the shared tree, or process-wide statics - therefore shows up as a difference,
 // and re-evaluating a plan (shrinking, determinism gate) starts from the same pristine image.
-Verdict isoCheck(const IsoPlan& p, IsoStats& st) {
+void isoSeeds(const IsoPlan& p, int k, uint64_t& ws, uint64_t& ss, bool& log) {
+    ws = p.wordSeed + 1000003ull * (uint64_t)k;
+    ss = p.schedSeed + 7919ull * (uint64_t)k;
+    log = p.collectLogLastOnly ? (k == p.K - 1) : true;
+}
+// side A: K executions of one analysed tree, in this process
+std::string isoSideA(const IsoPlan& p) {
     std::string src = isoSource(p);
-    auto seedsFor = [&](int k, uint64_t& ws, uint64_t& ss, bool& log) {
-        ws = p.wordSeed + 1000003ull * (uint64_t)k;
-        ss = p.schedSeed + 7919ull * (uint64_t)k;
-        log = p.collectLogLastOnly ? (k == p.K - 1) : true;
-    };
-    sim::ChildResult ca = sim::runInChild([&]() -> std::string {
-        Json arr = Json::array();
-        std::string err;
-        auto shared = parseOnly(src, err);
-        if (!shared) return Json::array().push(Json::object().set("reject", err)).dump();
-        try {
-            compiler::SemanticAnalyser an;
-            an.analyse(*shared);
-        } catch (const std::exception& e) {
-            return Json::array().push(Json::object().set("reject", std::string(e.what()))).dump();
-        }
-        for (int k = 0; k < p.K; ++k) {
-            uint64_t ws, ss;
-            bool log;
-            seedsFor(k, ws, ss, log);
-            if (p.reanalyse && k > 0) {
-                try {
-                    compiler::SemanticAnalyser an;
-                    an.analyse(*shared);
-                } catch (const std::exception& e) {
-                    arr.push(Json::object().set("special", "reanalysis_of_executed_program_fails").set("detail", std::string("analysing the same tree again before execution ") + std::to_string(k) + " failed: " + e.what()));
-                    return arr.dump();
-                }
+    Json arr = Json::array();
+    std::string err;
+    auto shared = parseOnly(src, err);
+    if (!shared) return Json::array().push(Json::object().set("reject", err)).dump();
+    try {
+        compiler::SemanticAnalyser an;
+        an.analyse(*shared);
+    } catch (const std::exception& e) {
+        return Json::array().push(Json::object().set("reject", std::string(e.what()))).dump();
+    }
+    for (int k = 0; k < p.K; ++k) {
+        uint64_t ws, ss;
+        bool log;
+        isoSeeds(p, k, ws, ss, log);
+        if (p.reanalyse && k > 0) {
+            try {
+                compiler::SemanticAnalyser an;
+                an.analyse(*shared);
+            } catch (const std::exception& e) {
+                arr.push(Json::object().set("special", "reanalysis_of_executed_program_fails").set("detail", std::string("analysing the same tree again before execution ") + std::to_string(k) + " failed: " + e.what()));
+                return arr.dump();
             }
-            ExecResult a = execOn(*shared, ws, ss, p.asMultiShot ? (k == p.K - 1) : log, p.asMultiShot, p.echoAll);
-            arr.push(execJson(a, g_rng.wordsDrawn));
         }
-        return arr.dump();
-    });
+        ExecResult a = execOn(*shared, ws, ss, p.asMultiShot ? (k == p.K - 1) : log, p.asMultiShot, p.echoAll);
+        arr.push(execJson(a, g_rng.wordsDrawn));
+    }
+    return arr.dump();
+}
+// side B: one fresh parse-analyse-run with the draws and schedule of execution k, in this process
+std::string isoSideB(const IsoPlan& p, int k) {
+    std::string src = isoSource(p);
+    uint64_t ws, ss;
+    bool log;
+    isoSeeds(p, k, ws, ss, log);
+    std::string e2;
+    auto fresh = parseOnly(src, e2);
+    if (!fresh) return Json::object().set("reject", e2).dump();
+    try {
+        compiler::SemanticAnalyser an;
+        an.analyse(*fresh);
+    } catch (const std::exception& e) {
+        return Json::object().set("reject", std::string(e.what())).dump();
+    }
+    ExecResult b = execOn(*fresh, ws, ss, p.asMultiShot ? true : log);
+    return execJson(b, g_rng.wordsDrawn).dump();
+}
+// The heap of a long-lived process is not the tidy heap of a fresh one: freed chunks of many sizes are handed out again
+// in an order that has nothing to do with the order of allocation. Every isolation child starts by putting its own
+// heap into such a state, from a seed in the plan, so that code which depends on object addresses (ordering, hashing)
+// behaves differently from allocation order - in the batch and in a replay alike.
+void fragmentHeap(uint64_t seed) {
+    sim::Rng fr(seed, "heap", 0);
+    std::vector<void*> blocks;
+    for (int i = 0; i < 600; ++i) blocks.push_back(malloc(16 + 16 * (size_t)fr.below(24)));
+    for (size_t i = blocks.size(); i > 1; --i) std::swap(blocks[i - 1], blocks[(size_t)fr.below(i)]);
+    for (size_t i = 0; i < blocks.size(); ++i)
+        if (i % 3 != 0) free(blocks[i]);   // a third stays allocated and pins the layout
+}
+int isoChildMain(const sim::Options& opt) {
+    std::string txt;
+    Json file;
+    if (!sim::readFile(opt.replay, txt) || !Json::parse(txt, file)) { fprintf(stderr, "iso child: cannot read plan %s\n", opt.replay.c_str()); return 2; }
+    IsoPlan p = isoFrom(file.has("plan") ? file.at("plan") : file);
+    fragmentHeap(p.schedSeed ^ 0x9e3779b97f4a7c15ull);
+    std::string out = opt.mode == "iso-A" ? isoSideA(p) : isoSideB(p, atoi(opt.mode.c_str() + 6));
+    fwrite(out.data(), 1, out.size(), stdout);
+    fflush(stdout);
+    return 0;
+}
+sim::Options g_isoOpt;   // how to start this binary again (self path, property, flavour)
+
+// Neither side runs in the worker or in a process forked from it: each is this binary started afresh (fork + exec, address
+// space randomisation off) on the plan file, so the batch, the in-worker re-evaluations and a replay all see the same
+// process image. State that leaks through anything that outlives an evaluator - the shared tree, process-wide statics -
+// shows up as a difference between side A (K executions of one analysed tree) and the fresh runs of side B.
+Verdict isoCheck(const IsoPlan& p, IsoStats& st) {
+    std::string planFile = g_scratch + "/iso-plan.json";
+    sim::writeFile(planFile, isoJson(p).dump());
+    sim::ChildResult ca = sim::execReplay(g_isoOpt, planFile, {"--mode", "iso-A"});
     Json ja;
-    if (!ca.exitedOk() || !Json::parse(ca.out, ja) || ja.t != Json::Arr) return {"repeated_execution_crashes", "the child running " + std::to_string(p.K) + " executions of one analysed tree ended with " + ca.describe() + ": " + sim::classifyCrash(ca.status, ca.err)};
+    if (!ca.exitedOk() || !Json::parse(ca.out, ja) || ja.t != Json::Arr) return {"repeated_execution_crashes", "the process running " + std::to_string(p.K) + " executions of one analysed tree ended with " + ca.describe() + ": " + sim::classifyCrash(ca.status, ca.err)};
     if (!ja.a.empty() && ja.a[0].has("reject")) return {"harness_rejected", ja.a[0].at("reject").asStr()};
     for (int k = 0; k < p.K; ++k) {
         if ((size_t)k >= ja.a.size()) return {"harness_short_result", "side A returned fewer results than executions"};
         ExecView a = viewFrom(ja.a[(size_t)k]);
         if (!a.special.empty()) return {a.special, a.rejectMsg};
-        uint64_t ws, ss;
-        bool log;
-        seedsFor(k, ws, ss, log);
-        sim::ChildResult cb = sim::runInChild([&]() -> std::string {
-            std::string e2;
-            auto fresh = parseOnly(src, e2);
-            if (!fresh) return Json::object().set("reject", e2).dump();
-            try {
-                compiler::SemanticAnalyser an;
-                an.analyse(*fresh);
-            } catch (const std::exception& e) {
-                return Json::object().set("reject", std::string(e.what())).dump();
-            }
-            ExecResult b = execOn(*fresh, ws, ss, p.asMultiShot ? true : log);
-            return execJson(b, g_rng.wordsDrawn).dump();
-        });
+        sim::ChildResult cb = sim::execReplay(g_isoOpt, planFile, {"--mode", "iso-B:" + std::to_string(k)});
         Json jb;
         if (!cb.exitedOk() || !Json::parse(cb.out, jb)) return {"harness_fresh_run_crashed", "fresh run " + std::to_string(k) + " ended with " + cb.describe()};
         ExecView b = viewFrom(jb);
@@ -1150,6 +1186,18 @@ int main(int argc, char** argv) {
     if (opt.property.empty()) opt.property = "C17";
     setenv("BLOCH_OFFLINE", "1", 1);
     g_scratch = std::string(getenv("TMPDIR") ? getenv("TMPDIR") : "/tmp") + "/blochsim.clirun." + std::to_string(getpid());
+    if (opt.mode.rfind("iso-", 0) == 0) {
+        // one side of an isolation plan, in a process of its own (started by isoCheck)
+        sim::mkdirs(g_scratch);
+        if (chdir(g_scratch.c_str())) {}
+        int rc = isoChildMain(opt);
+        if (chdir("/")) {}
+        std::string cmd = "rm -rf '" + g_scratch + "'";
+        if (system(cmd.c_str())) {}
+        return rc;
+    }
+    g_isoOpt = opt;
+    g_isoOpt.mode.clear();
     if (!opt.replay.empty()) {
         sim::mkdirs(g_scratch);
         if (chdir(g_scratch.c_str())) {}
